@@ -26,8 +26,8 @@ def near_window(N, n1, n2, n3):
 
 def run(chk):
     quick = chk.tier == "quick"
-    ok, log = chk.prove(["extract/Extract_C15.vo"])
-    chk.trusted += ["translator/translate.py (gen_matsubara4, gen_vertex4) and translator/cexpr.py",
+    ok, log = chk.prove(["extract/Extract_C15.vo"], extra_props=["Properties_C15_refs.v"])     # how Vertex4 holds its sources (translator/gen_vertexrefs.py)
+    chk.trusted += ["translator/translate.py (gen_matsubara4, gen_vertex4), translator/gen_vertexrefs.py (regular expressions over the member declarations of class Vertex4) and translator/cexpr.py",
                     "extraction: ExtrOcamlBasic, ExtrOCamlFloats (PrimFloat -> Float64 of coq-core.kernel, prod -> OCaml tuples, bool/option/list/unit/sumbool standard); "
                     "no Extract Constant of our own",
                     "ocaml/driver_c15.ml (parsing/printing), harness/h_c15.cpp, g++ 12 / Eigen / Boost as used by the library build"]
